@@ -633,6 +633,7 @@ class Intervals:
                         work.append(tgt)
         # final pass: evaluate asserts and aggregates with fixpoint states
         self.agg_values = []
+        self.upper_bounds = {}
         for bb in sorted(self.instates):
             st = self.copy_state(self.instates[bb])
             for i, s in enumerate(body.stmts(bb)):
@@ -642,6 +643,17 @@ class Intervals:
                 v = self.operand(st, t['cond'])
                 exp = 1 if t['expected'] else 0
                 self.assert_results[bb] = (v is not None and v[0] not in ('ovf', 'tup') and v[0] == v[1] == exp)
+                m = t.get('msg') or {}
+                if m.get('k') == 'overflow' and m.get('op') in ('Add', 'Mul') and st.get('R'):
+                    # x <= y established by a dominating guard (both unchanged since): y is an upper bound of the operand
+                    ub = {}
+                    for side in ('a', 'b'):
+                        o = m.get(side)
+                        r0 = self.root_local(st, o) if isinstance(o, dict) else None
+                        if r0 is not None:
+                            ub[side] = sorted(y for (x, y) in st['R'] if x == r0 and y != r0)
+                    if any(ub.values()):
+                        self.upper_bounds[bb] = ub
             elif t['k'] == 'call':
                 self.call_args[bb] = [self.operand(st, a) for a in t['args']]
         return self
@@ -793,8 +805,32 @@ def canon_expr(body, o, names=None):
 
 CANON_V3 = os.environ.get('VERIF_PO_CANON', 'new') not in ('old', 'v2')
 CANON_V4 = os.environ.get('VERIF_PO_CANON', 'new') not in ('old', 'v2', 'v3')
+CANON_V9 = os.environ.get('VERIF_PO_CANON', 'new') not in ('old', 'v2', 'v3', 'v4', 'v5', 'v6', 'v7', 'v8')
 COMMUTATIVE_BIN = ('Add', 'Mul', 'BitAnd', 'BitOr', 'BitXor', 'Eq', 'Ne', 'AddUnchecked', 'MulUnchecked')
 COMMUTATIVE_CALLS = ('min', 'max', 'wrapping_add', 'wrapping_mul')
+
+
+def _locals_in(e, out):
+    if isinstance(e, tuple):
+        if e and e[0] == 'local' and len(e) > 1 and isinstance(e[1], int):
+            out.add(e[1])
+        for x in (e[1:] if e and isinstance(e[0], str) else e):
+            _locals_in(x, out)
+    elif isinstance(e, list):
+        for x in e:
+            _locals_in(x, out)
+    return out
+
+
+def _vtext(e):
+    """identity of an opaque leaf: its text plus the locals it is built from - two loops both iterate over a compiler
+    temporary called `iter`, their variables are different variables (v9)"""
+    t = fmt(e)
+    if CANON_V9:
+        ls = sorted(_locals_in(e, set()))
+        if ls:
+            t += '#' + ','.join(str(x) for x in ls)
+    return t
 
 
 def _var(names, text):
@@ -833,11 +869,11 @@ def canon_fmt(e, names):
         # produced (range, enumerate, zip) or how a two-armed value is carried (tuple field, deferred `let`) is not
         # part of the obligation's identity
         if _is_iter_payload(e):
-            return _var(names, fmt(e))
+            return _var(names, _vtext(e))
         if k != 'local' and _is_temp_projection(e, names):
-            return _var(names, fmt(e))
+            return _var(names, _vtext(e))
         if k == 'local' and e[1] not in names:
-            return _var(names, fmt(e))
+            return _var(names, _vtext(e))
     if CANON_V7 and k == 'field' and str(e[2]) == '0' and isinstance(e[1], tuple) and e[1][0] == 'downcast' and \
             e[1][2] in ('Some', 'Ok', 'Continue'):
         # the value carried by a successful Option / Result, however it is taken out (`if let Some(x)`, `?`, match)
@@ -892,6 +928,9 @@ def canon_fmt(e, names):
         return '%s(%s)' % (short(e[1]), ','.join(args))
     if k == 'fnconst':
         from .mirlib import short
+        if CANON_V9:
+            # a function handed over by value is a closure that captures nothing (`.map(|s| s.to_owned())` / `.map(str::to_owned)`)
+            return 'closure{}'
         return short(e[1])
     if k == 'agg':
         from .mirlib import short
@@ -1167,8 +1206,17 @@ def _obligations(body, ia=None):
                     elif 'k' in m[kk]:
                         oty = m[kk]['k'].get('ty', '')
                     break
+            alts = []
+            if ia is not None and kind in ('overflow-add', 'overflow-mul') and getattr(ia, 'upper_bounds', {}).get(bb):
+                for side, ys in ia.upper_bounds[bb].items():
+                    for y in ys:
+                        ya = canon_expr(body, {'c': {'l': y}}, names)
+                        pa, pb = (ya, canon_expr(body, m['b'], names)) if side == 'a' else (canon_expr(body, m['a'], names), ya)
+                        if CANON_V4 and pb < pa:
+                            pa, pb = pb, pa
+                        alts.append('%s,%s' % (pa, pb))
             out.append({'kind': kind, 'ops': ops, 'bb': bb, 'discharged': dis, 'where': body.loc(bb),
-                        'detail': t.get('dbg', '')[:160], 'ty': oty})
+                        'detail': t.get('dbg', '')[:160], 'ty': oty, 'alts': alts})
         elif t['k'] == 'call':
             info = call_info(t)
             if info is None:
@@ -1396,6 +1444,12 @@ def implied(key, audit, o):
     """(audited key, reason) if the unaudited obligation `key` follows from an audited one of the same function"""
     if not str(o.get('ty', '')).startswith('u'):
         return None
+    for alt in o.get('alts') or ():
+        parts = key.split('|')
+        k1 = '|'.join(parts[:2] + [alpha(alt)])
+        if k1 in audit:
+            return k1, 'an operand is bounded by the dominating guard (x <= y), and the audited `%s` fits: %s' % (
+                k1.split('|')[2][:80], audit[k1])
     k0 = implied_partial_sum(key, audit)
     if k0:
         return k0, 'partial sum of unsigned terms of the audited sum `%s`: %s' % (k0.split('|')[2][:80], audit[k0])
